@@ -246,6 +246,9 @@ class StyleProperties:
 
     @classmethod
     def extract(cls, context: StyleParsingContext, xml_attrib: str):
+      if xml_attrib not in ("true", "false"):
+        raise ValueError("Bad itts:fillLineGap value")
+
       return xml_attrib == "true"
 
     @classmethod
@@ -773,6 +776,9 @@ class StyleProperties:
       else:
 
         s = xml_attrib.split(" ")
+
+        if not set(s) <= {"underline", "noUnderline", "lineThrough", "noLineThrough", "overline", "noOverline"}:
+          raise ValueError("Bad tts:textDecoration value")
 
         underline = None
         line_through = None
